@@ -277,6 +277,13 @@ def run_property(pid, tier, seed):
         if ex and pr["spec"].get("fuzz"):
             fuzz_execs += int(ex[-1])
         files = sorted(glob.glob(os.path.join(pr["rdir"], "*.json")))
+        if "WARNING: DATA RACE" in txt:
+            # the race detector reports asynchronously; the replay artifact is the report itself
+            # (schedule-dependent failures cannot be shrunk or replayed deterministically)
+            i = txt.index("WARNING: DATA RACE")
+            rp = os.path.join(pr["rdir"], "%s-race-report.json" % pid)
+            json.dump({"property": pid, "sub": "concurrent", "violation": {"kind": "data-race", "msg": txt[i:i + 6000]}, "case": {"note": "race detector report; see msg"}}, open(rp, "w"), indent=1)
+            files.append(rp)
         if not files and pr["rc"] != 0:
             # the process died (fatal error / OOM kill) while working on a case it had written out
             for inf in sorted(glob.glob(os.path.join(pr["rdir"], "*.inflight"))):
